@@ -319,6 +319,7 @@ func gsub(t *rt.Thread, c *rt.GoCont) (rt.Cont, error) {
 		sb         strings.Builder // Build the result string into this
 		matchCount int64
 		allowEmpty = true
+		anchored   = pat.StartAnchored()
 	)
 	// We require memory for the string we build as we go along.  In order to
 	// save allocations in case there are no substitutions, we do not start
@@ -326,7 +327,11 @@ func gsub(t *rt.Thread, c *rt.GoCont) (rt.Cont, error) {
 	// is achieved by keeping the variable sj the same until bytes are written
 	// in the string builder.
 	for ; matchCount != n; matchCount++ {
-		captures, usedCPU := pat.Match(string(s), si, t.UnusedCPU())
+		if anchored && matchCount > 0 {
+			// An anchored pattern can only match at the start of the subject.
+			break
+		}
+		captures, usedCPU := pat.MatchFromStart(string(s), si, t.UnusedCPU())
 		t.RequireCPU(usedCPU)
 		if len(captures) == 0 {
 			break
